@@ -45,6 +45,7 @@ class MrpPairingHandler(PairingHandler):
 
     async def begin(self):
         """Start pairing process."""
+        self._has_paired = False
         return await error_handler(
             self.pairing_procedure.start_pairing, exceptions.PairingError
         )
